@@ -9,6 +9,32 @@ PKG = "blackbird_python/blackbird/"
 HAND = ["auxiliary", "listener", "program", "utils", "error", "__init__"]
 
 
+GENERATED = ("blackbirdParser", "blackbirdLexer", "blackbirdListener")
+
+
+def other_modules():
+    """handwritten modules of the package besides the six of the pinned tree (new private modules a refactoring may introduce);
+    ANTLR output is recognised by name or by its 'Generated from' header, the test package is not part of the library"""
+    out = []
+    d = os.path.join(REPO, PKG)
+    if not os.path.isdir(d):
+        return out
+    for fn in sorted(os.listdir(d)):
+        if not fn.endswith(".py"):
+            continue
+        m = fn[:-3]
+        if m in HAND or m in GENERATED or m.startswith("test"):
+            continue
+        try:
+            head = open(os.path.join(d, fn), encoding="utf-8").read(200)
+        except (OSError, UnicodeDecodeError):
+            continue
+        if head.startswith("# Generated from"):
+            continue
+        out.append(m)
+    return out
+
+
 class Func:
     def __init__(self, mod, qual, node, cls=None):
         self.mod, self.qual, self.node, self.cls = mod, qual, node, cls
@@ -44,15 +70,42 @@ utils.match_template utils.to_DiGraph
 """.split())
 
 
+class FuncTable(dict):
+    """qualified name -> Func.  Old names of definitions that moved to another module of the package (and are re-exported from the old
+    one) are answered by lookup - `table["listener.is_ptype"]` - but do not take part in iteration, so every function is visited once."""
+
+    def __init__(self):
+        super().__init__()
+        self.alias = {}
+
+    def __missing__(self, key):
+        if key in self.alias:
+            return dict.__getitem__(self, self.alias[key])
+        raise KeyError(key)
+
+    def get(self, key, default=None):
+        if dict.__contains__(self, key):
+            return dict.__getitem__(self, key)
+        if key in self.alias:
+            return dict.__getitem__(self, self.alias[key])
+        return default
+
+    def __contains__(self, key):
+        return dict.__contains__(self, key) or key in self.alias
+
+
 class Index:
     def __init__(self, rep=None, modules=HAND, sources=None, inline=True):
         """sources: optional dict module name -> source text (used by the positive controls and the self-test)"""
         self.mods = {}
         self.src = {}
-        self.funcs = {}        # qual -> Func   e.g. listener.BlackbirdListener.exitStatement / auxiliary._expression
+        self.funcs = FuncTable()        # qual -> Func   e.g. listener.BlackbirdListener.exitStatement / auxiliary._expression
         self.classes = {}      # qual -> ClassDef
+        self.class_alias = {}  # old qual -> qual of the defining module, for classes that moved
         self.imports = {}      # mod -> {local name: (module, name)}
         self.module_aliases = {}  # mod -> {alias: real module name}  (import numpy as np)
+        if sources is None and modules is HAND:
+            modules = list(HAND) + other_modules()
         for m in (sources if sources is not None else modules):
             rel = PKG + m + ".py"
             if sources is not None:
@@ -87,6 +140,26 @@ class Index:
                         if isinstance(f, (ast.FunctionDef, ast.AsyncFunctionDef)):
                             q = "%s.%s.%s" % (m, n.name, f.name)
                             self.funcs[q] = Func(m, q, f, cls="%s.%s" % (m, n.name))
+        # definitions the rules know by name that now live in another module of the package and are re-exported from the old one
+        # (`from ._types import is_ptype` in listener.py): the old name stays an alias of the same Func / ClassDef
+        known_classes = {q.rsplit(".", 1)[0] for q in KNOWN_FUNCTIONS if q.count(".") == 2}
+        for cq in sorted(known_classes):
+            if cq not in self.classes:
+                m, name = cq.split(".")
+                real = self.resolve_name(m, name) if m in self.mods else None
+                if real in self.classes:
+                    self.classes[cq] = self.classes[real]
+                    self.class_alias[cq] = real
+                    for q2, f in list(self.funcs.items()):
+                        if f.cls == real:
+                            self.funcs.alias["%s.%s" % (cq, f.name)] = q2
+        for q in sorted(KNOWN_FUNCTIONS):
+            if q not in self.funcs and q.count(".") == 1:
+                m, name = q.split(".")
+                real = self.resolve_name(m, name) if m in self.mods else None
+                if real in self.funcs:
+                    self.funcs.alias[q] = real
+        self.known = frozenset(self.funcs[q].qual for q in KNOWN_FUNCTIONS if q in self.funcs)
         # analysis normal form: simple helpers are inlined into their callers (statement level), so that extracting a block of a handler
         # into a private function does not change what the structural rules see; the originals are kept as .orig
         if inline:
@@ -96,15 +169,20 @@ class Index:
                 f.orig = originals[q]
             new = {}
             for q, f in self.funcs.items():
+                if q != f.qual:
+                    continue
                 try:
-                    new[q] = norm.desugar_match(norm.inline_function(self, f, keep=KNOWN_FUNCTIONS))
-                    new[q] = norm.unroll_const_loops(new[q], self.module_globals(f.mod), self.single_assigned(f.mod))
-                    new[q] = norm.propagate_templates(new[q])
+                    new[q] = norm.normal_form(self, f, self.known)
                 except RecursionError:
                     new[q] = f.node
             for q, f in self.funcs.items():
-                f.orig = originals[q]
-                f.node = new[q]
+                if q == f.qual:
+                    f.node = new[q]
+        # program order of the (normalised) trees: line numbers of inlined code point into the helper, so "A comes before B" is asked of
+        # the position in the tree, never of line numbers
+        for q, f in self.funcs.items():
+            if q == f.qual:
+                number_nodes(f.node)
         # nested import inside functions (e.g. serialize imports NUMPY_TYPES lazily)
         for q, f in self.funcs.items():
             for n in ast.walk(f.node):
@@ -127,7 +205,15 @@ class Index:
         return {q.rsplit(".", 1)[1]: f for q, f in self.funcs.items() if f.cls == clsqual}
 
     def resolve_name(self, mod, name):
-        """module-level function/class named `name` as seen from module `mod` -> qual or None"""
+        """module-level function/class named `name` as seen from module `mod` -> qual (of the defining module) or None"""
+        q = self._resolve_name(mod, name)
+        if q is None:
+            return None
+        if q in self.funcs.alias:
+            return self.funcs.alias[q]
+        return self.class_alias.get(q, q)
+
+    def _resolve_name(self, mod, name):
         q = "%s.%s" % (mod, name)
         if q in self.funcs or q in self.classes:
             return q
@@ -137,7 +223,7 @@ class Index:
             if q in self.funcs or q in self.classes:
                 return q
             # re-export chain (e.g. __init__ imports from .listener)
-            return self.resolve_name(imp[0], imp[1]) if imp[0] in self.mods and imp[0] != mod else None
+            return self._resolve_name(imp[0], imp[1]) if imp[0] in self.mods and imp[0] != mod else None
         return None
 
     def properties(self):
@@ -175,7 +261,29 @@ class Index:
                         top.add(t.id)
         return frozenset(x for x in top if count.get(x) == 1)
 
-    def module_globals(self, mod):
+    def const_env(self, mod):
+        """(name -> value node, names) of the module-level constants visible in `mod` that are bound exactly once where they are defined
+        and never rebound in `mod` itself (own definitions and names imported from other modules of the package)"""
+        consts = {}
+        own = self.module_globals(mod)
+        single = self.single_assigned(mod)
+        for k, v in own.items():
+            if k in single:
+                consts[k] = v
+        rebound = set()
+        for n in ast.walk(self.mods[mod]):
+            if isinstance(n, ast.Name) and isinstance(n.ctx, (ast.Store, ast.Del)):
+                rebound.add(n.id)
+            elif isinstance(n, ast.Global):
+                rebound.update(n.names)
+        for local, (src_mod, name, level) in self.imports.get(mod, {}).items():
+            if level >= 1 and src_mod in self.mods and src_mod != mod and local not in own and local not in rebound:
+                c2, _ = self.const_env(src_mod) if src_mod not in getattr(self, "_ce_busy", set()) else ({}, None)
+                if name in c2:
+                    consts[local] = c2[name]
+        return consts, frozenset(consts)
+
+    def module_globals(self, mod, follow=False, _depth=0):
         """module-level simple assignments name -> value node"""
         out = {}
         for n in self.mods[mod].body:
@@ -185,11 +293,33 @@ class Index:
                         out[t.id] = n.value
             elif isinstance(n, ast.AnnAssign) and isinstance(n.target, ast.Name) and n.value is not None:
                 out[n.target.id] = n.value
+        # constants imported from another module of the package (moved tables stay visible under their old module)
+        if follow and _depth < 3:
+            for local, (src_mod, name, level) in self.imports.get(mod, {}).items():
+                if level >= 1 and local not in out and src_mod in self.mods and src_mod != mod:
+                    g = self.module_globals(src_mod, True, _depth + 1)
+                    if name in g:
+                        out[local] = g[name]
         return out
 
 
 def u(node):
     return ast.unparse(node)
+
+
+def number_nodes(root):
+    i = 0
+    todo = [root]
+    while todo:
+        n = todo.pop()
+        n._ord = i
+        i += 1
+        todo.extend(reversed(list(ast.iter_child_nodes(n))))
+
+
+def pos(n):
+    """position of a node in program order (depth-first pre-order of its function's normalised tree)"""
+    return getattr(n, "_ord", getattr(n, "lineno", 0))
 
 
 def walk_shallow(node):
